@@ -42,9 +42,25 @@ def run_plan(eng, plan, prop):
     except Violation as v:
         out.status, out.oracle, out.key, out.step, out.detail = VIOLATION, v.oracle, v.key, v.step, v.detail
         tr.ev("violation", v.oracle, v.step)
-    except Exception:
-        out.status, out.oracle = HARNESS, "harness"
-        out.detail = traceback.format_exc()[-3000:]
+    except Exception as e:
+        # An exception that escapes from inside pypose (deepest pypose frame below the last harness frame) while
+        # the harness was using a documented call is the library failing where the property promises a result:
+        # a violation of the property's "<ID>.raises" oracle.  Anything else is trouble in the harness itself.
+        tb = traceback.extract_tb(e.__traceback__)
+        repo_pp = os.path.join(os.path.realpath(env.REPO), "pypose") + os.sep
+        last_h = max([i for i, f in enumerate(tb) if os.sep + "ppsim" + os.sep in f.filename] or [-1])
+        pp_frames = [f for f in tb[last_h + 1:] if os.path.realpath(f.filename).startswith(repo_pp)]
+        if pp_frames and not isinstance(e, MemoryError):
+            f = pp_frames[-1]
+            out.status, out.oracle = VIOLATION, prop + ".raises"
+            out.key = "escaped:%s:%s" % (type(e).__name__, f.name)
+            out.detail = "%s: %s  (raised under %s:%d %s, called from %s)" % (
+                type(e).__name__, str(e)[:300], os.path.relpath(f.filename, env.REPO), f.lineno, f.name,
+                "%s:%d" % (os.path.basename(tb[last_h].filename), tb[last_h].lineno) if last_h >= 0 else "?")
+            tr.ev("violation", out.oracle, out.key)
+        else:
+            out.status, out.oracle = HARNESS, "harness"
+            out.detail = traceback.format_exc()[-3000:]
     out.digest = tr.digest()
     return out
 
